@@ -612,15 +612,19 @@ void template_match(numpy::aligned_array<T> res, const numpy::aligned_array<T> f
         T diff2 = T(0);
         for (npy_intp j = 0; j != N2; ++j) {
             T val;
-            if (fiter.retrieve(iter, j, val)) {
-                const T tj = fiter[j];
-                const T delta = (val > tj ? val - tj : tj - val);
-                if (just_equality && delta) {
-                    diff2 = 1;
-                    break;
-                }
-                diff2 += delta*delta;
+            if (!fiter.retrieve(iter, j, val)) {
+                // outside the image: left out in ignore mode; the padding constant in constant mode
+                // (the wrapper only accepts cval == 0)
+                if (mode != ExtendConstant) continue;
+                val = T(0);
             }
+            const T tj = fiter[j];
+            const T delta = (val > tj ? val - tj : tj - val);
+            if (just_equality && delta) {
+                diff2 = 1;
+                break;
+            }
+            diff2 += delta*delta;
         }
         *rpos = diff2;
     }
